@@ -716,7 +716,7 @@ INCOMPATIBLE = [('blank_type', 'unknown_type'), ('ila_degree3', 'fused_degree3')
 
 
 def main(rep, tier, seed):
-    d = 2 if tier == 'quick' else 3
+    d = 3 if tier == 'quick' else 4
     names = list(MUT)
     cases = []
     for k in range(0, d + 1):
@@ -728,9 +728,9 @@ def main(rep, tier, seed):
         cases.append({'mut': [], 'error': e})
         cases.append({'mut': ['west_values', 'coordinates'], 'error': e})
     srows = list(SERVICE_ROWS)
-    for k in (1, 2, 3):
+    for k in (1, 2, 3, 4):
         for ci, combo in enumerate(itertools.combinations(srows, k)):
-            if k == 3 and tier == 'quick' and (ci + seed) % 3:
+            if k == 4 and tier == 'quick' and (ci + seed) % 5:
                 continue
             cases.append({'mut': ['eqpt_ila'] if k == 2 else [], 'services': list(combo)})
     cases.append({'mut': [], 'services': srows})
@@ -741,7 +741,7 @@ def main(rep, tier, seed):
     results, stats = engine.run_pool('checks.c20', cases, horizon=300)
     rep.absorb(results)
     rep.cov['bound'] = (f'all combinations of <= {d} of {len(MUT)} workbook mutators on a 5-site base workbook (ROADM, ILA, FUSED sites); '
-                        f'{len(ERRORS)} error workbooks x 2 contexts; service sheets with every 1-2 (and a third of the 3-) row '
+                        f'{len(ERRORS)} error workbooks x 2 contexts; service sheets with every 1-3 (and {"a fifth of the" if tier == "quick" else "every"} 4-) row '
                         f'subsets of {len(SERVICE_ROWS)} row kinds and {len(SERVICE_ERRORS)} invalid rows')
     rep.cov['space_size'] = len(cases)
     rep.cov['exhaustive'] = not stats['budget_hit'] and len(results) == len(cases)
